@@ -22,7 +22,7 @@ ASSUMPTIONS = [
     "T-node emit log = bytes returned by node.emit during Program.emit (producer); write_block calls (consumer)",
 ]
 WEIGHTS = dict(ins=5, data=6, label=2, block=1.5, scope=0.8, macro=0.8, call=2, for_=1, if_=0.6, assign=1, sym=0.6, org=3.5, reloc=2.5,
-               ascii=1.5, incbin=0.8, branch=0.0, table=0.4, text=0.8, include=0.5, include_ips=0.6)
+               ascii=1.5, incbin=0.8, branch=0.5, table=0.4, text=0.8, include=0.5, include_ips=0.6)
 
 
 def plan(tier: str, seed: int) -> list[dict]:
@@ -73,7 +73,13 @@ def directed(rng: random.Random) -> dict:
         if c < 0.3:
             body.append({"k": "org", "e": E(g.rom_addr() if rng.random() < 0.85 else rng.choice(ram))})
         elif c < 0.5:
-            body.append({"k": "reloc", "e": E(rng.choice(ram) if rng.random() < 0.5 else g.rom_addr())})
+            to_ram = rng.random() < 0.5
+            body.append({"k": "reloc", "e": E(rng.choice(ram) if to_ram else g.rom_addr())})
+            if not to_ram and rng.random() < 0.5:
+                # "stored contiguously but assembled to run elsewhere": a short loop in the relocated code branches by run addresses
+                n = "lr%d" % len(body)
+                body += [{"k": "label", "n": n}, {"k": "data", "d": "db", "es": [E(rng.randrange(256)) for _ in range(rng.randint(0, 9))]},
+                         {"k": "ins", "m": rng.choice(["bra", "bne", "bcc"]), "shape": "rel", "sz": "", "e": E(n)}]
         elif c < 0.8:
             body.append({"k": "data", "d": rng.choice(["db", "dw", "dl"]), "es": [E(rng.randrange(1 << 16)) for _ in range(rng.randint(1, 6))]})
         elif c < 0.9:
